@@ -6,4 +6,6 @@ package sim
 // yield points are the seams (SimReader.ReadAt).
 func setYieldHook(f func(string)) {}
 
+func setBlockHook(f func(string)) {}
+
 const instrumentedBuild = false
